@@ -274,6 +274,26 @@ func (r *Run) oneStep() {
 			add(1, r.stepReopen)
 		}
 	}
+	if r.gate != nil && r.K.Ingest && r.K.Reopen {
+		// several ingests (and excises) queued behind the closed gate, then a
+		// close+reopen: the queued flushables must be rebuilt from the WAL
+		addSafe(2, func() {
+			r.gate.close()
+			r.gateLeft = 100
+			r.count("flush_gate_windows", 1)
+			for i, n := 0, 2+r.rng.IntN(3); i < n && !r.failed; i++ {
+				r.stepWrite()
+				if !r.failed {
+					r.stepIngest()
+				}
+			}
+			if !r.failed {
+				r.count("reopens_with_flush_gate_closed", 1)
+				r.stepReopen()
+			}
+			r.openGate()
+		})
+	}
 	if r.K.Ingest {
 		w := 5
 		if r.K.IngestHeavy {
